@@ -38,11 +38,11 @@ def toks(script):
 
 
 def h160s():
-    return st.binary(min_size=20, max_size=20)
+    return st.one_of(gen.rand_bytes(20), st.binary(min_size=20, max_size=20))
 
 
 def h256s():
-    return st.binary(min_size=32, max_size=32)
+    return st.one_of(gen.rand_bytes(32), st.binary(min_size=32, max_size=32))
 
 
 def xonly_keys():
@@ -118,7 +118,7 @@ def diff_cases(draw):
         "leaf_version": draw(st.sampled_from([0xC0, 0xC2, 0x66, 0xFE])),
         "cb_parity": draw(st.integers(0, 1)),
         "path": draw(st.lists(h256s(), max_size=3)),
-        "sig": draw(st.binary(min_size=64, max_size=64)),
+        "sig": draw(st.one_of(gen.rand_bytes(64), st.binary(min_size=64, max_size=64))),
     }
 
 
